@@ -50,6 +50,7 @@ func (d Derived) String() string {
 // Slice, Distinct, GroupBy/QFrames and Copy steps over helper columns, so that the
 // result has an arbitrary subset+permutation index, shares storage with live
 // siblings and may have spare index capacity. maxSteps 0 yields the plain frame.
+// The frame the chain starts from is built through a drawn origin (see BuildVia).
 // It fails the test (t.Fatalf) only if the chain itself reports Err, which is
 // attributed to the caller's property by convention (C02/C03/C08 own these steps).
 func GenDerived(t *rapid.T, base Table, maxSteps int) Derived {
@@ -62,11 +63,11 @@ func GenDerived(t *rapid.T, base Table, maxSteps int) Derived {
 	full := Table{Cols: append(append([]Col(nil), base.Cols...),
 		Col{Name: HelperRank, Kind: KInt, I: rank},
 		Col{Name: HelperMask, Kind: KInt, I: mask})}
-	qf := Build(full)
+	qf, origin := BuildVia(t, full)
 	if qf.Err != nil {
 		t.Fatalf("building base frame failed: %v\n%s", qf.Err, full.String())
 	}
-	d := Derived{Base: base, Sel: Iota(n)}
+	d := Derived{Base: base, Sel: Iota(n), Route: []string{origin}}
 	steps := 0
 	if maxSteps > 0 {
 		steps = rapid.IntRange(0, maxSteps).Draw(t, "steps")
